@@ -52,7 +52,7 @@ theorem renders_congr (s : Sem E V T) (f : String) {D0 D1 : V} (hs : SameBut s f
   | .elem _ attrs ch, .elem .., sc, ho, h => by
     simp only [occurs, Bool.or_eq_false_iff] at ho
     exact ⟨h.1, by rw [h.2.1, evalAttrs_congr s f hs sc attrs ho.1], rendersL_congr s f hs ch _ sc ho.2 h.2.2⟩
-  | .block ch, .virt .., sc, ho, h => rendersL_congr s f hs ch _ sc (by simpa [occurs] using ho) h
+  | .block inc ch, .virt .., sc, ho, h => rendersL_congr s f hs ch _ (if inc then [] else sc) (by simpa [occurs] using ho) h
   | .cond bs, .ifn _ k nch, sc, ho, h => by
     simp only [occurs] at ho
     refine ⟨by rw [h.1]; exact firstTrue_congr s f hs sc bs 1 ho, rendersBr_congr s f hs bs k 1 nch sc ho h.2⟩
@@ -70,8 +70,8 @@ theorem renders_congr (s : Sem E V T) (f : String) {D0 D1 : V} (hs : SameBut s f
   | .text _, .fornK .., _, _, h => by simp [renders] at h
   | .elem .., .text .., _, _, h | .elem .., .virt .., _, _, h | .elem .., .ifn .., _, _, h | .elem .., .forn .., _, _, h
   | .elem .., .fornK .., _, _, h => by simp [renders] at h
-  | .block _, .text .., _, _, h | .block _, .elem .., _, _, h | .block _, .ifn .., _, _, h | .block _, .forn .., _, _, h
-  | .block _, .fornK .., _, _, h => by simp [renders] at h
+  | .block _ _, .text .., _, _, h | .block _ _, .elem .., _, _, h | .block _ _, .ifn .., _, _, h | .block _ _, .forn .., _, _, h
+  | .block _ _, .fornK .., _, _, h => by simp [renders] at h
   | .cond _, .text .., _, _, h | .cond _, .elem .., _, _, h | .cond _, .virt .., _, _, h | .cond _, .forn .., _, _, h
   | .cond _, .fornK .., _, _, h => by simp [renders] at h
   | .loop .., .text .., _, _, h | .loop .., .elem .., _, _, h | .loop .., .virt .., _, _, h | .loop .., .ifn .., _, _, h
@@ -134,9 +134,12 @@ theorem bm_renders (s : Sem E V T) (f : String) {D0 D1 : V} (hs : SameBut s f D0
     obtain ⟨h1, h2, h3⟩ := h
     simp only [bmUpdate, renders]
     exact ⟨h1, by rw [h2]; exact bmAttrs_eq s f hs sc attrs, bm_rendersL s f hs ch och sc (by simpa [dynOccurs] using hd) h3⟩
-  | .block ch, .virt b och, sc, hd, h => by
+  | .block inc ch, .virt b och, sc, hd, h => by
+    simp only [dynOccurs, Bool.or_eq_false_iff] at hd
+    obtain ⟨hinc, hd⟩ := hd
+    subst hinc
     simp only [bmUpdate, renders]
-    exact bm_rendersL s f hs ch och sc (by simpa [dynOccurs] using hd) h
+    exact bm_rendersL s f hs ch och sc hd h
   | .cond bs, .ifn b k och, sc, hd, h => by
     simp only [bmUpdate]
     exact renders_congr s f hs (.cond bs) _ sc (by simpa [dynOccurs, occurs] using hd) h
@@ -150,8 +153,8 @@ theorem bm_renders (s : Sem E V T) (f : String) {D0 D1 : V} (hs : SameBut s f D0
   | .text _, .fornK .., _, _, h => by simp [renders] at h
   | .elem .., .text .., _, _, h | .elem .., .virt .., _, _, h | .elem .., .ifn .., _, _, h | .elem .., .forn .., _, _, h
   | .elem .., .fornK .., _, _, h => by simp [renders] at h
-  | .block _, .text .., _, _, h | .block _, .elem .., _, _, h | .block _, .ifn .., _, _, h | .block _, .forn .., _, _, h
-  | .block _, .fornK .., _, _, h => by simp [renders] at h
+  | .block _ _, .text .., _, _, h | .block _ _, .elem .., _, _, h | .block _ _, .ifn .., _, _, h | .block _ _, .forn .., _, _, h
+  | .block _ _, .fornK .., _, _, h => by simp [renders] at h
   | .cond _, .text .., _, _, h | .cond _, .elem .., _, _, h | .cond _, .virt .., _, _, h | .cond _, .forn .., _, _, h
   | .cond _, .fornK .., _, _, h => by simp [renders] at h
   | .loop .., .text .., _, _, h | .loop .., .elem .., _, _, h | .loop .., .virt .., _, _, h | .loop .., .ifn .., _, _, h
@@ -176,10 +179,14 @@ theorem bindmap_refines (s : Sem E V T) (f : String) (t : Tpl E) (D0 D1 : V) (hs
     (hadv : advertised s f t = true) (n : Node V) (hn : renders s D0 [] t n) :
     (bmUpdate s D1 [] f t n).shape = (create s 0 D1 [] t).shape := by
   simp only [advertised, Bool.and_eq_true, Bool.not_eq_true'] at hadv
-  exact renders_shape s D1 t _ [] (bm_renders s f hs t n [] hadv.2 hn)
+  exact renders_shape s D1 t _ [] (bm_renders s f hs t n [] hadv.1.2 hn)
 
 /-- a field that is read inside a `wx:if` chain or a `wx:for` is not advertised -/
 theorem not_advertised_of_dynOccurs (s : Sem E V T) (f : String) (t : Tpl E) (h : dynOccurs s f t = true) : advertised s f t = false := by
+  simp [advertised, h]
+
+/-- a template with an `<include>` advertises nothing -/
+theorem not_advertised_of_include (s : Sem E V T) (f : String) (t : Tpl E) (h : hasIncl t = true) : advertised s f t = false := by
   simp [advertised, h]
 
 end GE.TagSem
